@@ -706,7 +706,7 @@ func (ex *Exec) step(st *State, fr *Frame, in ssa.Instruction, b *ssa.BasicBlock
 			if og := callee.Origin(); og != nil {
 				o = og
 			}
-			if cs := ex.P.Specs.Funcs[funcKey(o)]; cs != nil {
+			if cs := ex.P.Specs.For(funcKey(o), ex.prop); cs != nil {
 				var args []*Val
 				for _, a := range x.Call.Args {
 					args = append(args, ex.val(st, a))
